@@ -80,6 +80,51 @@ def rfc4571_wake_shape():
     return {"statements": len(stmts) + 1}, ""
 
 
+def lookup_shape():
+    """the statements of agent/agent.c and agent/discovery.c that coq/Agent/LookupModel.v models (completion bookkeeping of a gathering run with server
+    names to resolve), verbatim up to white space: both resolver callbacks end in the common tail, a failed lookup reaches it too, the completion
+    test of agent_gathering_done, the once-per-stream announcement, discovery_schedule, the end of the discovery tick."""
+    flat = lambda t: re.sub(r"\s+", "", t)
+    ag = open(os.path.join(vlib.REPO, "agent/agent.c")).read()
+    di = open(os.path.join(vlib.REPO, "agent/discovery.c")).read()
+
+    def body(src, name):
+        m = re.search(r"\n" + name + r"\s*\(.*?\n\}\n", src, re.S)
+        return flat(m.group(0)) if m else None
+    want = {
+        "stun_server_resolved_cb": (ag, [
+            "agent->stun_resolving_list = g_slist_remove_all (agent->stun_resolving_list, data);",
+            "if (addresses == NULL) {", "g_clear_error (&error);", "agent_lock (agent); goto finish; }",
+            "finish: if (agent->discovery_unsched_items) discovery_schedule (agent); else agent_gathering_done (agent); agent_unlock_and_emit (agent); done:"]),
+        "turn_server_resolved_cb": (ag, [
+            "if (addresses == NULL) {", "turn->resolution_failed = TRUE;", "goto finish; }",
+            "finish: if (agent->discovery_unsched_items) discovery_schedule (agent); else agent_gathering_done (agent); done: agent_unlock_and_emit (agent);"]),
+        "void agent_gathering_done": (ag, [
+            "if (nice_component_resolving_turn (component)) { dns_resolution_ongoing = TRUE; continue; }",
+            "if (agent->discovery_timer_source == NULL && !upnp_running && !dns_resolution_ongoing && agent->stun_resolving_list == NULL) agent_signal_gathering_done (agent); }"]),
+        "void agent_signal_gathering_done": (ag, [
+            "if (stream->gathering) { stream->gathering = FALSE; agent_queue_signal (agent, signals[SIGNAL_CANDIDATE_GATHERING_DONE], stream->id); }"]),
+        "void discovery_schedule": (di, [
+            "if (agent->discovery_unsched_items > 0) { if (agent->discovery_timer_source == NULL) {", "gboolean res = priv_discovery_tick_unlocked (agent); if (res == TRUE) {",
+            "agent_timeout_add_with_context (agent, &agent->discovery_timer_source,"]),
+    }
+    n = 0
+    for fn, (src, stmts) in want.items():
+        b = body(src, fn)
+        if b is None:
+            return None, "%s not found" % fn
+        pos = 0
+        for st in stmts:
+            k = b.find(flat(st), pos)
+            if k < 0:
+                return None, "%s no longer contains the modelled statement `%s` (in this order)" % (fn, st)
+            pos = k + 1; n += 1
+    comp = flat(open(os.path.join(vlib.REPO, "agent/component.c")).read())
+    if flat("if (turn->resolution_failed) continue; if (!nice_address_is_valid (&turn->server)) return TRUE;") not in comp:
+        return None, "nice_component_resolving_turn no longer skips servers whose resolution failed"
+    return {"statements": n}, ""
+
+
 def strerror_table():
     """coq/Gen/StunErrTab.v from stun_strerror() in stun/stunmessage.c: (code, phrase) list + default phrase."""
     import sys
